@@ -10,7 +10,7 @@ RULE = ("case = (frame of 1..64 bytes incl. every CAN FD length and odd lengths,
         "Every decode/encode is observed on objects with a history: the first use of a frame is made with its signals somewhere else "
         "(then moved into place by assignment), each call is repeated, and once more after another detour; an encode request is also "
         "made with one values dict used for several selector values. A result that depends on that history is a failure. "
-        "One multiplexer in four is signed; 30 % of the frames carry signals with physical scaling, limits and start values; container frames with header signals and PDUs are checked against the length rule on the implementation itself (unpack with the opt-in equals unpack of the padded / cut payload). Non-trivial = distinct case whose payload is not constant or whose length differs from the declared one.")
+        "Frames longer than 8 bytes are CAN FD frames and the next FD length above the declared one is among the payload lengths; a third of the Motorola signals are placed by set_startbit(msb number, bitNumbering=1) as a DBC reader does. One multiplexer in four is signed; 30 % of the frames carry signals with physical scaling, limits and start values; container frames with header signals and PDUs are checked against the length rule on the implementation itself (unpack with the opt-in equals unpack of the padded / cut payload). Non-trivial = distinct case whose payload is not constant or whose length differs from the declared one.")
 PARTIAL = ["struct.unpack('>f'/'>d') (IEEE-754 conversion) is trusted: float signals are compared as bit patterns, NaN as a class",
            "PDU-container frames are modelled up to the length check only"]
 ASSUMPTIONS = ["signal names unique within a frame", "placements inside the frame (start+size <= 8*len); Python's negative-index "
@@ -63,7 +63,8 @@ def gen(rng, tier, shard, nshards):
             # the length rule
             kind = rng.choice(["plain", "plain", "mux", "container"])
             fd = gen_frame(rng, kind)
-            ln = rng.choice([rng.randint(0, 2 * fd["size"]), fd["size"] - 1, fd["size"] + 1, fd["size"], 0, 2 * fd["size"]])
+            nxt = next((x for x in F.FD_LENGTHS if x > fd["size"]), fd["size"] + 1)      # the next CAN FD length above the declared one
+            ln = rng.choice([rng.randint(0, 2 * fd["size"]), fd["size"] - 1, fd["size"] + 1, fd["size"], 0, 2 * fd["size"], nxt])
             data = F.rand_payload(rng, ln) if ln else []
             if fd.get("ctfull"):
                 data = ([0, 0, 10, 2, rng.randrange(256), rng.randrange(256), 0, 0, 11, 2, rng.randrange(256), rng.randrange(256)] + [0] * 64)[:ln]
